@@ -13,9 +13,11 @@ import (
 	"flag"
 	"fmt"
 	"os"
+	"runtime"
 	"sort"
 	"strconv"
 	"strings"
+	"sync"
 	"time"
 )
 
@@ -24,6 +26,7 @@ type stats struct {
 	oracleFail   int
 	fails        map[string]int
 	histories    int
+	failLines    []string // sweep: first failures with their configuration (there is no trace to look at)
 }
 
 func newStats() *stats {
@@ -36,6 +39,7 @@ type hist struct {
 	out  *bufio.Writer
 	st   *stats
 	step int
+	cur  op
 }
 
 func newHist(c cfg, out *bufio.Writer, st *stats) *hist {
@@ -50,10 +54,16 @@ func newHist(c cfg, out *bufio.Writer, st *stats) *hist {
 }
 
 func (h *hist) fail(sig, detail string) {
+	prop := "C19"
+	if sig == "panic" {
+		prop = "C13" // "never panics" is its own property
+	}
 	h.st.oracleFail++
 	h.st.fails[sig]++
 	if h.out != nil {
-		fmt.Fprintf(h.out, "ORACLE-FAIL property=C19 sig=%s step=%d %s\n", sig, h.step, detail)
+		fmt.Fprintf(h.out, "ORACLE-FAIL property=%s sig=%s step=%d %s\n", prop, sig, h.step, detail)
+	} else if len(h.st.failLines) < 20 {
+		h.st.failLines = append(h.st.failLines, fmt.Sprintf("ORACLE-FAIL property=%s sig=%s %s | %s | %s", prop, sig, detail, h.c.line(), h.cur.String()))
 	}
 }
 
@@ -69,6 +79,7 @@ func ints(xs []int) string {
 // exec runs one op on the real code, prints the op line and its observables, evaluates the oracles.
 func (h *hist) exec(o op) {
 	h.step++
+	h.cur = o
 	h.st.ops[o.name]++
 	if h.out != nil {
 		fmt.Fprintln(h.out, o.String())
@@ -244,55 +255,95 @@ func cmdRun(path string, out *bufio.Writer, st *stats) {
 func cmdSweep(args []string, st *stats) {
 	fs := flag.NewFlagSet("sweep", flag.ExitOnError)
 	max := fs.Int("max", smallTables, "number of tables")
+	workers := fs.Int("workers", runtime.NumCPU(), "parallel workers")
 	fs.Parse(args)
+	if *workers < 1 {
+		*workers = 1
+	}
 	start := time.Now()
-	bufUsages := []uint32{0x80, 2, 0x22, 0}
-	variant := 0
-	for ti := 0; ti < *max && ti < smallTables; ti++ {
-		types := smallTable(ti)
-		combos := []int{0, 1, 2, 3}
-		if len(types) == 3 {
-			combos = []int{ti % 4}
-		}
-		for _, cb := range combos {
-			c := cfg{integrated: cb&1 != 0, amd: cb&2 != 0, api: 10, types: types, heaps: []int{256 << 20}}
-			w, err := newWorld(c, false, 256)
-			if err != nil {
-				fmt.Fprintf(os.Stderr, "selh: vam.New failed: %v\n", err)
-				os.Exit(3)
+	parts := make([]*stats, *workers)
+	var wg sync.WaitGroup
+	for wi := 0; wi < *workers; wi++ {
+		parts[wi] = newStats()
+		wg.Add(1)
+		go func(wi int) {
+			defer wg.Done()
+			for ti := wi; ti < *max && ti < smallTables; ti += *workers {
+				sweepTable(ti, parts[wi])
 			}
-			h := &hist{c: c, w: w, st: st}
-			st.histories++
-			for usage := 0; usage < 5; usage++ {
-				for _, hf := range hostCombos {
-					variant++
-					v := variant * 2654435761
-					req := uint32(0)
-					if v&3 == 0 {
-						req = smallBits[(v>>2)%6]
-					}
-					pref := uint32(0)
-					if v>>5&1 == 0 {
-						pref = smallBits[(v>>6)%6] | smallBits[(v>>9)%6]
-					}
-					tb := uint32(0xffffffff)
-					if v>>12&3 == 0 {
-						tb = uint32(v>>14) & 7
-					}
-					ctb := uint32(0)
-					if v>>17&3 == 0 {
-						ctb = uint32(v>>19) & 7
-					}
-					a := []uint64{uint64(usage), uint64(hf), uint64(req), uint64(pref), uint64(ctb), uint64(tb)}
-					h.exec(op{name: "FIND", a: a})
-					bu := uint64(bufUsages[(v>>22)&3])
-					h.exec(op{name: "FINDBUF", a: append(append([]uint64(nil), a...), bu)})
-					h.exec(op{name: "FINDIMG", a: append(append([]uint64(nil), a...), bu)})
-				}
+		}(wi)
+	}
+	wg.Wait()
+	for _, p := range parts {
+		st.histories += p.histories
+		st.oracleFail += p.oracleFail
+		for k, v := range p.ops {
+			st.ops[k] += v
+		}
+		for k, v := range p.results {
+			st.results[k] += v
+		}
+		for k, v := range p.fails {
+			st.fails[k] += v
+		}
+		for _, l := range p.failLines {
+			if len(st.failLines) < 20 {
+				st.failLines = append(st.failLines, l)
 			}
 		}
 	}
-	fmt.Fprintf(os.Stderr, "SWEEP tables=%d seconds=%.1f\n", *max, time.Since(start).Seconds())
+	for _, l := range st.failLines {
+		fmt.Println(l)
+	}
+	fmt.Fprintf(os.Stderr, "SWEEP tables=%d workers=%d seconds=%.1f\n", *max, *workers, time.Since(start).Seconds())
+}
+
+var sweepBufUsages = []uint32{0x80, 2, 0x22, 0}
+
+func sweepTable(ti int, st *stats) {
+	types := smallTable(ti)
+	combos := []int{0, 1, 2, 3}
+	if len(types) == 3 {
+		combos = []int{ti % 4}
+	}
+	for _, cb := range combos {
+		c := cfg{integrated: cb&1 != 0, amd: cb&2 != 0, api: 10, types: types, heaps: []int{256 << 20}}
+		w, err := newWorld(c, false, 256)
+		if err != nil {
+			fmt.Fprintf(os.Stderr, "selh: vam.New failed: %v\n", err)
+			os.Exit(3)
+		}
+		h := &hist{c: c, w: w, st: st}
+		st.histories++
+		variant := ti*4 + cb
+		for usage := 0; usage < 5; usage++ {
+			for _, hf := range hostCombos {
+				variant += 7919
+				v := variant * 2654435761
+				req := uint32(0)
+				if v&3 == 0 {
+					req = smallBits[(v>>2)%6]
+				}
+				pref := uint32(0)
+				if v>>5&1 == 0 {
+					pref = smallBits[(v>>6)%6] | smallBits[(v>>9)%6]
+				}
+				tb := uint32(0xffffffff)
+				if v>>12&3 == 0 {
+					tb = uint32(v>>14) & 7
+				}
+				ctb := uint32(0)
+				if v>>17&3 == 0 {
+					ctb = uint32(v>>19) & 7
+				}
+				a := []uint64{uint64(usage), uint64(hf), uint64(req), uint64(pref), uint64(ctb), uint64(tb)}
+				h.exec(op{name: "FIND", a: a})
+				bu := uint64(sweepBufUsages[(v>>22)&3])
+				h.exec(op{name: "FINDBUF", a: append(append([]uint64(nil), a...), bu)})
+				h.exec(op{name: "FINDIMG", a: append(append([]uint64(nil), a...), bu)})
+			}
+		}
+	}
 }
 
 func main() {
